@@ -79,6 +79,17 @@ EXCL_MODEL = ("rapid state machine over bigbuff.Exclusive in a synctest bubble: 
               "(all answered, key map empty, fresh calls run fresh executions, no goroutine left). ")
 
 
+EXCL_FREE = (" Plus exclfree: free-running concurrent programs in a bubble (2-8 caller goroutines x 1-5 calls of every style on 1-3 keys, work functions yielding before/after "
+             "resolve, Gosched bursts at the library's runner-start / after-work instrumentation points) with history oracles: per-key overlap counter inside the work functions, exactly "
+             "one outcome per call, produced by an execution of its key begun after the call was stamped, never an earlier one, resolve-not-called only from a non-resolving execution, no "
+             "closure twice, every Start followed by an execution, no per-key state or goroutine left.")
+
+
+def exclfree(prof, quick, thorough):
+    return {"name": "exclfree", "test": "TestExclFree", "checks": {"quick": quick, "thorough": thorough},
+            "shards": {"quick": 8, "thorough": 16}, "env": {"VKIT_PROFILE": prof}, "stall_sig": prof + "/stall"}
+
+
 def exclstep(prof, quick, thorough):
     # Exclusive never blocks while holding a lock, so a wedged case (driver or work function stuck behind a library
     # mutex) is itself a violation: calls not answered / keys not independent
@@ -127,12 +138,12 @@ CONFIG = {
         ],
     },
     "C09": {
-        "rule": EXCL_MODEL + "non-trivial = >=2 executions on one key with a call arriving in a resolve->return gap, or two keys with work functions open at once; distinct = hash of the op trace.",
-        "jobs": [exclstep("C09", 16000, 600000)],
+        "rule": EXCL_MODEL + "non-trivial = >=2 executions on one key with a call arriving in a resolve->return gap, or two keys with work functions open at once; distinct = hash of the op trace." + EXCL_FREE,
+        "jobs": [exclstep("C09", 16000, 600000), exclfree("C09", 16000, 800000)],
     },
     "C10": {
-        "rule": EXCL_MODEL + "non-trivial = an execution answering >=2 calls of different styles, or a skip-resolve execution with a waiter; distinct = hash of the op trace.",
-        "jobs": [exclstep("C10", 16000, 600000)],
+        "rule": EXCL_MODEL + "non-trivial = an execution answering >=2 calls of different styles, or a skip-resolve execution with a waiter; distinct = hash of the op trace." + EXCL_FREE,
+        "jobs": [exclstep("C10", 16000, 600000), exclfree("C10", 16000, 800000)],
     },
     "C06": {
         "rule": PUBSUB_FREE + "non-trivial = an unsubscribe overlapping a Send in logical time, or >=2 senders whose Sends overlapped; distinct = hash of the generated program.",
